@@ -36,8 +36,13 @@ AllNames == Names \cup {"z", "y"}
 MCDict == [n \in AllNames |-> [u |-> <<Rank(n)>>, v |-> TRUE]]
 
 SLEN == 4
+(* self-test switch: the pinned commit's set_len, which zeroed nothing it exposed *)
+NoScrub == "NOSCRUB" \in DOMAIN IOEnv
+(* the bytes of every sector are part of the state only when DATA is set in the environment (C08 / C01 design runs):
+   they multiply the state space, which the table-level invariants do not need *)
+WithData == "DATA" \in DOMAIN IOEnv
 P == INSTANCE CfbPhys WITH SectorLen <- SLEN, MiniLen <- 2, Cutoff <- 8, FatPer <- 4, DirPer <- 2, DifatHdr <- 1,
-                           DirCount <- V4, NameLess <- MCLess, NameEq <- MCEq, ModuloPolicy <- OldPolicy
+                           DirCount <- V4, NameLess <- MCLess, NameEq <- MCEq, ModuloPolicy <- OldPolicy, TrackData <- WithData, Scrub <- ~NoScrub
 I == INSTANCE CfbImage WITH Dict <- MCDict, MiniLen <- 2, CutoffLen <- 8, DifatHdrLen <- 1
 MCKnown(n) == TRUE
 O == INSTANCE CfbOpen WITH DifatHdrLen <- 1, MiniLen <- 2, CutoffLen <- 8, NameLess <- MCLess, NameKnown <- MCKnown,
@@ -96,21 +101,29 @@ Enabled(m, o) ==
     [] o.op = "set_len"        -> IsStream(m, o.n)
     [] o.op = "reopen"         -> TRUE
 
-ApplyModel(m, o) ==
-  CASE o.op = "create_stream"  -> (o.n :> [kind |-> "stream", size |-> 0]) @@ m
-    [] o.op = "create_storage" -> (o.n :> [kind |-> "storage", size |-> 0]) @@ m
+(* the abstract bytes of a stream: a sequence of tags; every write uses a fresh tag (the number of *)
+(* the operation), set_len pads with the tag 0 = "a zero byte"                                     *)
+Overwrite(b, off, n, t) ==
+  [i \in 1..(IF Len(b) > off + n THEN Len(b) ELSE off + n) |-> IF i > off /\ i <= off + n THEN t ELSE b[i]]
+Resized(b, n) == [i \in 1..n |-> IF i <= Len(b) THEN b[i] ELSE 0]
+ApplyModelT(m, o, t) ==
+  CASE o.op = "create_stream"  -> (o.n :> [kind |-> "stream", size |-> 0, bytes |-> <<>>]) @@ m
+    [] o.op = "create_storage" -> (o.n :> [kind |-> "storage", size |-> 0, bytes |-> <<>>]) @@ m
     [] o.op = "remove"         -> [x \in (DOMAIN m) \ {o.n} |-> m[x]]
-    [] o.op = "write"          -> [m EXCEPT ![o.n].size = IF @ > o.a + o.b THEN @ ELSE o.a + o.b]
-    [] o.op = "set_len"        -> [m EXCEPT ![o.n].size = o.a]
+    [] o.op = "write"          -> [m EXCEPT ![o.n].size = (IF @ > o.a + o.b THEN @ ELSE o.a + o.b),
+                                            ![o.n].bytes = Overwrite(@, o.a, o.b, t)]
+    [] o.op = "set_len"        -> [m EXCEPT ![o.n].size = o.a, ![o.n].bytes = Resized(@, o.a)]
     [] o.op = "reopen"         -> m
+ApplyModel(m, o) == ApplyModelT(m, o, 7)
 
-ApplyPhys(q, m, o) ==
+ApplyPhysT(q, m, o, t) ==
   CASE o.op = "create_stream"  -> P!CreateStream(q, 0, o.n)
     [] o.op = "create_storage" -> P!CreateStorage(q, 0, o.n)
     [] o.op = "remove"         -> IF m[o.n].kind = "stream" THEN P!RemoveStream(q, 0, o.n) ELSE P!RemoveStorage(q, 0, o.n)
-    [] o.op = "write"          -> P!WriteData(q, P!FindChild(q, 0, o.n), o.a, o.b)
-    [] o.op = "set_len"        -> P!SetLen(q, P!FindChild(q, 0, o.n), o.a)
+    [] o.op = "write"          -> P!WriteDataT(q, P!FindChild(q, 0, o.n), o.a, o.b, t)
+    [] o.op = "set_len"        -> P!SetLenT(q, P!FindChild(q, 0, o.n), o.a)
     [] o.op = "reopen"         -> P!Reload(q)
+ApplyPhys(q, m, o) == ApplyPhysT(q, m, o, 7)
 
 Op(o, n, a, b) == [op |-> o, n |-> n, a |-> a, b |-> b]
 Alphabet ==
@@ -145,7 +158,7 @@ OpClass(q, m, o) ==
     [] OTHER -> o.op
 Do(o) ==
   /\ phase = "prefix" /\ nops < MaxOps /\ Enabled(model, o)
-  /\ p' = ApplyPhys(p, model, o) /\ model' = ApplyModel(model, o) /\ nops' = nops + 1
+  /\ p' = ApplyPhysT(p, model, o, nops + 1) /\ model' = ApplyModelT(model, o, nops + 1) /\ nops' = nops + 1
   /\ UNCHANGED <<phase, cyc, pos, rep, sizes, base>>
   /\ (EmitClasses => PrintT(<<"CLASS", P!StepClass(OpClass(p, model, o), p, p')>>))
 
@@ -183,6 +196,20 @@ InvAbs ==
        \E i \in live : /\ P!E(p, i).name = n
                        /\ P!E(p, i).kind = (IF model[n].kind = "stream" THEN P!KStream ELSE P!KStorage)
                        /\ P!E(p, i).size = model[n].size
+(* C08 / C01 at design level: every stream reads back exactly the abstract   *)
+(* bytes - what was written last, and zeros for everything set_len added,    *)
+(* whatever the reused (mini) sectors held before.                           *)
+InvData ==
+  \A n \in DOMAIN model :
+    model[n].kind = "stream" =>
+      LET id == P!FindChild(p, 0, n) IN id # -1 /\ P!ReadStream(p, id) = model[n].bytes
+(* the zero-exposure half alone (C08): no stream shows a stale byte where the abstract bytes are zero *)
+ZeroExposure ==
+  \A n \in DOMAIN model :
+    model[n].kind = "stream" =>
+      LET id == P!FindChild(p, 0, n)  b == P!ReadStream(p, id) IN
+      \A i \in 1..Len(model[n].bytes) : model[n].bytes[i] = 0 => b[i] = 0
+
 (* C02 at design level: every image the write paths produce is accepted by  *)
 (* the open path (CfbOpen = transcription of open_internal and the          *)
 (* validators), strictly and permissively, with the same tables.            *)
@@ -225,8 +252,9 @@ NoDamageStrictAccepts == \A d \in Damaged(Image(p)) : d = Image(p) \/ O!Verdict(
 NoDamageOnlyPermissive == \A d \in Damaged(Image(p)) : ~(O!Verdict(d, TRUE).k = "err" /\ O!Verdict(d, FALSE).k = "ok")
 
 (* C15: the size after repetition 2 is the baseline; later repetitions must not change it *)
+Shape(m) == [n \in DOMAIN m |-> <<m[n].kind, m[n].size>>]
 NoGrowth ==
-  (phase = "done" /\ model = base) => (sizes[3] = sizes[2] /\ sizes[4] = sizes[2])
+  (phase = "done" /\ Shape(model) = Shape(base)) => (sizes[3] = sizes[2] /\ sizes[4] = sizes[2])
 
 (* coverage witnesses: TLC reports a violation of each of these "invariants"  *)
 (* exactly when the growth path is reachable (used by the self-test only)     *)
